@@ -110,14 +110,17 @@ def _run_bw(case):
     for r in range(1, len(leaves) + 1):
         for sub in itertools.combinations(leaves, r):
             cfgs.append((spread, list(sub), 1 if r % 2 else None))
-    for k in (1, 2, m + 1):
+    for k in sorted({1, 2, max(1, m - 1), m + 1}):
         cfgs.append((ws[-1], None, k))
         cfgs.append(("sum", "all", k))
+    cfgs.append((spread, "gen", None))  # inputs given as a one-shot iterator
     viol, outcomes, execs, nontriv, worst = [], set(), 0, 0, 0.0
     for ci, (w, inputs, chunk) in enumerate(cfgs):
-        A = P.build_torch(prog, lv)
-        B = P.build_torch(prog, lv)
-        if inputs == "all":
+        lay = "f" if ci % 3 == 1 else "c"  # every third configuration: column-major (dense, non-contiguous) leaves
+        A = P.build_torch(prog, lv, layout=lay)
+        B = P.build_torch(prog, lv, layout=lay)
+        gen = inputs == "gen"
+        if inputs in ("all", "gen"):
             inputs = leaves
         if w == "sum":
             agg, wv = Sum(), [1.0] * m
@@ -135,7 +138,8 @@ def _run_bw(case):
         rank = {id(A[v]): sgn * v for v in range(t.nvalues)}
         try:
             with SetOrderSeam(lambda x: rank.get(id(x), 10 ** 6)):
-                backward([A[o] for o in outs], agg, inputs=None if inputs is None else [A[l] for l in inputs], parallel_chunk_size=chunk)
+                backward([A[o] for o in outs], agg, inputs=None if inputs is None else ((A[l] for l in inputs) if gen else [A[l] for l in inputs]),
+                         parallel_chunk_size=chunk)
         except Exception as e:
             viol.append(dict(sig=f"exception:bw:{type(e).__name__}", msg=f"{P.prog_str(prog, outs)} | {cfg} | {e!r}"[:600]))
             execs += 1
